@@ -25,7 +25,7 @@
 From Coq Require Import QArith String.
 From QV.lib Require Import Prelude C03_Slice.
 From QV.model Require Import C03_Model.
-From QV.proof Require Import C03_Proofs C03_Proofs_Ext C03_Proofs_Bounds.
+From QV.proof Require Import C03_Proofs C03_Proofs_Ext C03_Proofs_Bounds C03_Proofs_Sized.
 From Coq Require Import List.
 Import ListNotations.
 Local Close Scope Q_scope.
@@ -318,7 +318,53 @@ Theorem C03_np_index_in_bounds :
 Proof. exact np_index_in_bounds. Qed.
 Print Assumptions C03_np_index_in_bounds.
 
+(* Every ndarray object of every reachable state is a real array: its buffer holds exactly
+   prod(shape) elements — after any history of constructions, copies, setters, pads, crops, bins,
+   resamplings, indexings and 4dstem reductions.  Two premises, both about things outside the
+   model: the arrays handed in by the caller are real arrays (wf_op), and the Fourier kernel returns
+   an array of the shape it is asked for (fr_osh: the new lengths on the resampled axes). *)
+Theorem C03_arrays_well_formed :
+  forall (FR : list Z -> list Z -> list nat -> list Z -> list Z) (divf : Z -> Z -> Z),
+    (forall ax outs sh fl, length (FR ax outs sh fl) = prodn (fr_osh ax outs sh)) ->
+    forall (ops : list op) (t : nat),
+      Forall wf_op ops ->
+      let s := run FR divf empty_state ops in
+      t < length (dss s) ->
+      length (o_flat (observe s t)) = prodn (o_shape (observe s t)).
+Proof. exact reach_sized. Qed.
+Print Assumptions C03_arrays_well_formed.
+
+(* ... hence indexing returns elements OF THE SOURCE ARRAY (never a value from outside it), exactly
+   prod(result shape) of them. *)
+Theorem C03_getitem_elements :
+  forall (FR : list Z -> list Z -> list nat -> list Z -> list Z) (divf : Z -> Z -> Z),
+    (forall ax outs sh fl, length (FR ax outs sh fl) = prodn (fr_osh ax outs sh)) ->
+    forall (ops : list op) (t : nat) (idx : list index) (s' : state),
+      Forall wf_op ops ->
+      let s := run FR divf empty_state ops in
+      t < length (dss s) -> getitem s t idx = Ok s' ->
+      let src := observe s t in
+      let res := observe s' (length (dss s)) in
+      length (o_flat res) = prodn (o_shape res) /\
+      Forall (fun x => In x (o_flat src)) (o_flat res).
+Proof. exact reach_getitem_elements. Qed.
+Print Assumptions C03_getitem_elements.
+
 (* ------------------------------------------------------------------ non-vacuity (round 3) *)
+(* the premises of C03_arrays_well_formed are satisfiable: a kernel that returns zeros of the
+   requested shape, and the example history *)
+Definition FRz (ax outs : list Z) (sh : list nat) (_ : list Z) : list Z := repeat 0%Z (prodn (fr_osh ax outs sh)).
+Example C03_nonvacuous_sized :
+  (forall ax outs sh fl, length (FRz ax outs sh fl) = prodn (fr_osh ax outs sh)) /\
+  Forall wf_op [ex_seed; OFourier 0 (FROut [3]%Z) (AxInt 0) true; OGetitem 0 [IEll; ISlice None None (Some (-1)%Z)]] /\
+  o_shape (observe (run FRz Z.div empty_state
+                        [ex_seed; OFourier 0 (FROut [3]%Z) (AxInt 0) true;
+                         OGetitem 0 [IEll; ISlice None None (Some (-1)%Z)]]) 1) = [3; 3; 4].
+Proof.
+  split; [intros; unfold FRz; apply repeat_length|].
+  split; [repeat constructor|vm_compute; reflexivity].
+Qed.
+
 (* ds[-1::-2] on an axis of length 5 reads 4, 2, 0 *)
 Example C03_nonvacuous_slice :
   slice_indices (Some (-1)%Z) None (Some (-2)%Z) 5 = Some (4, -1, -2)%Z /\ slice_len 4 (-1) (-2) = 3%Z.
